@@ -4,5 +4,6 @@
    Run from extract/gen (the .ml files are written to the current directory). *)
 From Coq Require Extraction.
 From Coq Require Import ExtrOcamlBasic.
-From RP Require Import Base.Bits Model.Codec Model.Evaluator Model.Showdown Model.Game Model.Iso Model.Hands Model.Pgcopy Model.Parse Model.Deck Model.Discount Model.Cfr Model.Tree Model.RegretMatching Model.Kmeans Model.Equity Model.Emd Spec.SpecPgcopy Spec.SpecCombs Spec.SpecIso Spec.SpecPoker Spec.SpecStrength Spec.SpecNLHE Spec.SpecPots Spec.SpecEquity.
-Separate Extraction Gen.GenLib Gen.GenStreet Gen.GenCards Gen.GenAbstract Gen.GenPerm Gen.GenFixes Gen.GenTables Gen.GenDiscount Base.Bits Model.Codec Model.Evaluator Model.Showdown Model.Game Model.Iso Model.Hands Model.Pgcopy Model.Parse Model.Deck Model.Discount Model.Cfr Model.Tree Model.RegretMatching Model.Kmeans Model.Equity Model.Emd Spec.SpecPgcopy Spec.SpecCombs Spec.SpecIso Spec.SpecPoker Spec.SpecStrength Spec.SpecNLHE Spec.SpecPots Spec.SpecEquity BinNat.N Coq.ZArith.BinInt.Z.
+From RP Require Import Base.Bits Model.Codec Model.Evaluator Model.Showdown Model.Game Model.Iso Model.Hands Model.Pgcopy Model.Parse Model.Deck Model.Discount Model.Cfr Model.Tree Model.RegretMatching Model.Kmeans Model.Equity Model.Emd Model.BucketF32 Spec.SpecPgcopy Spec.SpecCombs Spec.SpecIso Spec.SpecPoker Spec.SpecStrength Spec.SpecNLHE Spec.SpecPots Spec.SpecEquity.
+(* of Model.BucketF32 only the two integer functions of the characterisation theorem (no Flocq term is extracted) *)
+Separate Extraction Gen.GenLib Gen.GenStreet Gen.GenCards Gen.GenAbstract Gen.GenPerm Gen.GenFixes Gen.GenTables Gen.GenDiscount Base.Bits Model.Codec Model.Evaluator Model.Showdown Model.Game Model.Iso Model.Hands Model.Pgcopy Model.Parse Model.Deck Model.Discount Model.Cfr Model.Tree Model.RegretMatching Model.Kmeans Model.Equity Model.Emd Spec.SpecPgcopy Spec.SpecCombs Spec.SpecIso Spec.SpecPoker Spec.SpecStrength Spec.SpecNLHE Spec.SpecPots Spec.SpecEquity Model.BucketF32.bucket_exact Model.BucketF32.rounds_down_tie BinNat.N Coq.ZArith.BinInt.Z.
